@@ -32,7 +32,19 @@ pub fn run_child(args: &[String], overall: Duration, mark_timeout: Option<Durati
 }
 
 pub fn run_exe(exe: &str, args: &[String], env: &[(String, String)], overall: Duration, mark_timeout: Option<Duration>) -> WorkerOutcome {
-    let mut child = Command::new(exe)
+    // Every worker (and whatever it starts: the real server, libFuzzer) runs under an address-space
+    // limit, so that a blow-up in memory ends that one process (allocation failure = abort, which is
+    // attributed to the marked case and confirmed like any other crash) instead of the machine.
+    // VERIF_MEM_KB overrides the default of 10 GiB; 0 switches the limit off.
+    let mem_kb: u64 = std::env::var("VERIF_MEM_KB").ok().and_then(|v| v.parse().ok()).unwrap_or(10 * 1024 * 1024);
+    let mut cmd = if mem_kb > 0 {
+        let mut c = Command::new("sh");
+        c.arg("-c").arg(format!("ulimit -v {}; exec \"$0\" \"$@\"", mem_kb)).arg(exe);
+        c
+    } else {
+        Command::new(exe)
+    };
+    let mut child = cmd
         .args(args)
         .envs(env.iter().map(|(k, v)| (k.clone(), v.clone())))
         .stdin(Stdio::null())
